@@ -23,6 +23,8 @@ EXPECT = {
     "unstage_keeps_new": ("MUT_resolve.cfg", ["P_C15_Unstage"]),
     "snapshot_unmerged": ("MUT_resolve.cfg", ["P_C12_NoDocChange"]),
     "first_parent_only": ("MUT_travel.cfg", ["P_C14_Travel", "I_C13_Graph"]),
+    "unstage_keeps_cache": ("MUT_cache.cfg", ["I_C02_AppliedComplete", "P_C02_RefreshApplies"]),       # defect P13 before its repair
+    "reload_keeps_cache": ("MUT_cachedamage.cfg", ["I_C02_AppliedComplete", "P_C10_ErrorOrIntact"]),  # defect P12 before its repair
 }
 only = sys.argv[1:] or sorted(EXPECT)
 ok = True
